@@ -1,4 +1,4 @@
 SPECIFICATION Spec
-CONSTANT PreFirst = FALSE
+CONSTANT PreFirst = TRUE
 INVARIANT Lossless
 CHECK_DEADLOCK FALSE
